@@ -78,8 +78,21 @@ def _unit(view):
         ensures=[('every_block_is_in_a_tract_or_flagged_as_unused', lambda text, view, result: nothing_dropped(result, text, view))])
 
 
+def _finder_unit():
+    """the hand-over between SecFinder and the marker walk: every accepted match carries all (>= 1) unpacked section numbers, so
+    that construct_tracts creates at least one tract for the block staged with it"""
+    from props import c20
+    return Unit(
+        name='C04/SecFinder[every match keeps its sections]', prop='C04', target='props.c20:run_finders',
+        params={'text': Str(), 'layout': Choice(Const('TRS_desc'), Const('desc_STR')), 'mode': Const(False)},
+        ghost={'c1': Bool(), 'c2': Bool(), 'n': Const(2)},
+        requires=lambda text: len(text) >= 60 and c20.no_illegal_word_before(text), setup_params=c20._finder_setup,
+        ensures=[('matches_carry_their_sections', lambda result:
+                  len(result[0][0]) == 2 and result[0][0][0][1] == ['14'] and result[0][0][1][1] == ['15', '16'])])
+
+
 def units():
-    return [_unit(v) for v in ALL_VIEWS]
+    return [_unit(v) for v in ALL_VIEWS] + [_finder_unit()]
 
 
 # ======================================================================================================================
@@ -106,6 +119,9 @@ def _bounded_foreign_word(tier, seed):
         style = rng.choice([0, 1, 2, 4, 5])
         text = gen.render(desc, layout, twp_style=style, sec_word=rng.choice(gen.SEC_WORDS[:5]), sep=rng.choice([', ', '; ', '\n']),
                           colon=rng.random() < 0.8)
+        if rng.random() < 0.3:
+            # section numbers beyond 36 are still section references whose text must not vanish
+            text = re.sub(r'(?<=Sec )(\d+)', lambda m: str(int(m.group(1)) + 40), text, count=1)
         toks = re.split(r'( )', text)
         variants = [toks]
         if len(toks) > 6:
